@@ -17,6 +17,7 @@ from facts import strip, show, walk, const_val, normalize_cond, atom_of
 def check(run, prog, tier):
     run.rule("C11-a", "error_handler: on the uncaught path with current_heart_beat set, set_heart_beat(current_heart_beat,0) and the clearing store precede the jump; current_heart_beat has no other writers; it is set before the heart_beat call", 4)
     run.rule("C11-b", "destruct_object: set_heart_beat(ob, 0) dominates the store that sets O_DESTRUCTED", 1)
+    run.rule("C11-d", "set_heart_beat removal: num_hb_to_do-- only for an entry inside the running round (index < num_hb_to_do), heart_beat_index-- only for an entry at or before the cursor, both only while a round runs", 2)
     run.rule("C11-c", "heart_beats[]: every subscript is bounded by num_hb_objs (counting-down loop from the length, or append after the capacity test); the capacity variable is increased before the reallocation", 6)
 
     eh = run.need(prog.func("error_handler"), "error_handler")
@@ -79,6 +80,19 @@ def check(run, prog, tier):
     okc = bool(clr) and all(any(chb.point_dominates((cb.id, ci), (b.id, i)) for cb, ci, cn in clr) for b, i, n in others)
     run.ob("C11-a", "clear-before-other-tasks", okc, "current_heart_beat = 0 dominates look_for_objects_to_swap()/call_out()" if okc else "reset/call_out run with current_heart_beat possibly still set",
            chb.file, chb.line, "call_heart_beat", what="an error in reset()/call_out switches off the last heart beat object's heart beat")
+
+    # ---- C11-d round cursors on removal
+    for var, cmpop, other in (("num_hb_to_do", "<", "num_hb_to_do"), ("heart_beat_index", "<=", "heart_beat_index")):
+        decs = [(b, i, n) for b, i, n in shb.nodes() if n.get("k") == "Un" and n.get("op") == "--" and strip(n["e"]).get("n") == var]
+        if not decs:
+            run.ob("C11-d", "cursor:" + var, False, "set_heart_beat never adjusts %s when an entry is removed" % var, shb.file, shb.line, "set_heart_beat", what="removal from heart_beats[] does not adjust %s" % var)
+            continue
+        b, i, n = decs[0]
+        g = [atom_of(c, t) for c, t, B in cfgq.guards(shb, b.id)]
+        inside = any(op == cmpop and strip(l).get("n") == "index" and strip(r).get("n") == other for op, l, r in g)
+        in_round = any((op == "true" and strip(l).get("n") == "num_hb_to_do") or (op == "!=" and strip(l).get("n") == "num_hb_to_do" and const_val(r) == 0) for op, l, r in g)
+        run.ob("C11-d", "cursor:" + var, inside and in_round and len(decs) == 1, "%s-- under `index %s %s` (%s) and only while a round is running (%s)" % (var, cmpop, other, inside, in_round), shb.file, n.get("l"), "set_heart_beat",
+               what="set_heart_beat(ob,0) adjusts %s for entries that are not part of the running round (or not at all): objects are skipped or called twice in that tick" % var)
 
     # ---- C11-b
     flagsets = [(b, i, n) for b, i, n in do.nodes() if n.get("k") == "Asg" and n.get("op") == "|=" and strip(n["L"]).get("f") == "flags" and facts.any_in_macro(n["R"], "O_DESTRUCTED")]
